@@ -458,7 +458,10 @@ class Interp:
             raise Raised('TypeError', str(ex))
 
     def st_For(self, st, env):
-        it = self.iterate(self.eval(st.iter, env))
+        itv = self.eval(st.iter, env)
+        if isinstance(itv, AbsObj) and hasattr(itv, 'summarise_loop_'):
+            return itv.summarise_loop_(self, st, env)
+        it = self.iterate(itv)
         broke = False
         for i, x in enumerate(it):
             if i > self.MAX_LOOP * 8:
@@ -679,6 +682,11 @@ class Interp:
         raise Unmodelled('unary op')
 
     def binop(self, op, l, r, node=None):
+        for a, b, refl in ((l, r, False), (r, l, True)):
+            if isinstance(a, AbsObj) and hasattr(a, 'binop_'):
+                v = a.binop_(op, b, refl)
+                if v is not NotImplemented:
+                    return v
         if is_unk(l) or is_unk(r):
             return Unk('binop')
         if isinstance(l, AbsObj) or isinstance(r, AbsObj):
@@ -756,6 +764,9 @@ class Interp:
                 if is_unk(res):
                     return res
                 return res if isinstance(op, ast.Eq) else (not res)
+            for a, b, refl in ((l, r, False), (r, l, True)):
+                if isinstance(a, AbsObj) and hasattr(a, 'cmp_'):
+                    return a.cmp_(op, b, refl)
             return Unk('cmp')
         if is_unk(l) or is_unk(r):
             return Unk('cmp')
